@@ -73,16 +73,19 @@ impl<const S: usize> PeerWantlist<S> {
         wantlist: ProtoWantlist,
     ) -> (Vec<CidGeneric<S>>, Vec<CidGeneric<S>>) {
         if wantlist.full {
-            let wanted_cids = wantlist
-                .entries
-                .into_iter()
-                .filter_map(|e| {
-                    if e.cancel {
-                        return None;
-                    }
-                    CidGeneric::try_from(e.block).ok()
-                })
-                .collect();
+            let mut wanted_cids = FnvHashSet::default();
+
+            for e in wantlist.entries {
+                if wanted_cids.len() >= MAX_WANTLIST_ENTRIES_PER_PEER {
+                    break;
+                }
+                if e.cancel {
+                    continue;
+                }
+                if let Ok(cid) = CidGeneric::try_from(e.block) {
+                    wanted_cids.insert(cid);
+                }
+            }
 
             return self.wantlist_replace(wanted_cids);
         }
